@@ -445,7 +445,7 @@ func replay(t *T, rs []*result) {
 // optsFor cycles through the generator configurations of part A.
 func optsFor(i int) (gen.Opts, string) {
 	secs := gen.AllSECs()
-	o := gen.Opts{Categories: gen.AllCategories(), Offset: true, PresetTraces: true}
+	o := gen.Opts{IATCorrections: true, Categories: gen.AllCategories(), Offset: true, PresetTraces: true}
 	j := i / 8
 	switch i % 8 {
 	case 0:
